@@ -212,6 +212,15 @@ def check(run, model, tier):
         txt = norm(t.ast)
         if ('id(%s)' % queue_name) in txt or (' is %s' % queue_name) in txt or ('%s is ' % queue_name) in txt:
             id_tests.append(t)
+    # a flag that is set on one side of the identity test stands for it: `found = False; for q in reg: if q is queue: found = True; break` ... `if not found:`
+    if id_tests:
+        from sa.hsmbuf import bool_locals
+        for b in bool_locals(h.node):
+            sets = [n for n in g.nodes if n.kind == 'stmt' and isinstance(n.ast, ast.Assign) and any(isinstance(t, ast.Name) and t.id == b for t in n.ast.targets)]
+            if any(guarded_by_edge(g, s_, t, lab) for s_ in sets for t in id_tests for lab in ('true', 'false')):
+                for t in g.nodes:
+                    if t.kind == 'test' and t not in id_tests and any(isinstance(x, ast.Name) and x.id == b for x in ast.walk(t.ast)):
+                        id_tests.append(t)
     run.inst('IDENT.registry', h, 'registration is decided by an identity test', len(id_tests) >= 1,
              '' if id_tests else 'subscribe no longer tests by identity whether the queue is already registered: re-subscription duplicates the queue '
              '(every publication is then delivered twice) or confuses equal queues', obligation=True)
